@@ -19,12 +19,16 @@ class Boom(Exception):
     pass
 
 
-def make_handler(counter, fail_at):
+class Interrupt(BaseException):
+    """like KeyboardInterrupt: raised from the caller's progress handler but not a subclass of Exception"""
+
+
+def make_handler(counter, fail_at, exc=Boom):
     class H(ProgressHandler):
         def _tick(self):
             counter[0] += 1
             if fail_at is not None and counter[0] == fail_at:
-                raise Boom('injected at callback %d' % fail_at)
+                raise exc('injected at callback %d' % fail_at)
 
         def update(self, n=1, force=False):
             super().update(n, force)
@@ -166,6 +170,22 @@ for case in payload['cases']:
                 rebuild()
             elif k % 7 == 0 or k == rec['K']:
                 verify_followup('handler', k)
+        # 1b. the same with an exception that is not a subclass of Exception (Ctrl-C during the progress bar)
+        for k in range(1, rec['K'] + 1):
+            cnt = [0]
+            raised = False
+            try:
+                do_op(target, make_handler(cnt, k, Interrupt))
+            except Interrupt:
+                raised = True
+            except Exception as e:
+                rec['violations'].append({'kind': 'interrupt', 'at': k, 'what': 'unexpected exception %r' % e})
+                raised = True
+            ok = check_after('interrupt', k, raised)
+            if not ok:
+                rebuild()
+            elif k % 9 == 0 or k == rec['K']:
+                verify_followup('interrupt', k)
         # 2. denied SQL statements
         for j in range(1, rec['A'] + 1):
             acalls = [0]
